@@ -239,6 +239,23 @@ pub fn check_case(tape: &[u16], rc: &mut RCase) -> Result<(), Failure> {
             }
             return Err(Failure::new(if case_only { "interface_spelling_differs_from_ir" } else { sig }, detail, rendered()));
         }
+        // a client that supplies a value for every key the embedded IR asks for leaves no key open ("a client
+        // supplying precisely what the interface declares can resolve the transaction")
+        {
+            use tx3_tir::reduce::Apply as _;
+            let wanted = find_params(&embedded);
+            let args: BTreeMap<String, tx3_tir::reduce::ArgValue> = wanted.iter().map(|(k, ty)| (k.clone(), super::c06::arg_for(ty, &mut t))).collect();
+            if let Ok(Ok(applied)) = crate::util::guard(|| embedded.clone().apply_args(&args)) {
+                let still: Vec<String> = find_params(&applied).keys().cloned().collect();
+                if !still.is_empty() {
+                    return Err(Failure::new(
+                        "declared_key_cannot_be_supplied",
+                        format!("tx {}: after supplying every key of {:?} the embedded IR still asks for {:?}", gtx.name, wanted.keys().collect::<Vec<_>>(), still),
+                        rendered(),
+                    ));
+                }
+            }
+        }
         // every declared key the body uses is required under the same spelling
         let (up, ue, upar) = used_names(&case, txi);
         for (kind, used, keys) in [("parameter", &up, &param_keys), ("environment", &ue, &env_keys), ("party", &upar, &party_keys)] {
